@@ -7,7 +7,8 @@ package codon
 // verif:bound C06 codon clause: all 25 table ids x every codon over {A,C,G,T,a,c,g,t}^3 (complete: the solver decides all 512 spellings of the 64 codons per table)
 // verif:bound C06 start/stop lists: closed comparison for the 25 tables (no symbolic input)
 // verif:bound C06 concatenation/partial-codon/case clauses: tables 1, 2, 11 and one more chosen by VERIF_SEED, strings over {A,C,G,T,a,c,g,t} of length 1..7 (quick) / 1..10 (thorough), every codon-boundary split
-// verif:bound C06 outside the claim: strings longer than the stated lengths (the quantifier goes to 3000)
+// verif:bound C06 long-input clause: strings of about 1023, 2046, 2049, 4095, 4098 (+0..2) letters (quick) and further sizes up to 65538 (thorough): a concrete periodic body with 13 symbolic letters at the start, middle and end; splits at the first, middle and last codon boundary
+// verif:bound C06 outside the claim: fully symbolic strings longer than 10 letters
 
 
 func Harness_C06_CodonTable() {
@@ -75,6 +76,34 @@ func Harness_C06_Concatenation() {
 	up, _ := Translate(c06Upper(s), table)
 	vAssert(vEqStr(whole, up), "case-irrelevant")
 	vCover("C06 more than one codon with a partial tail", n >= 7 && n%3 != 0)
+}
+
+// long inputs: the translation of a long string equals the concatenation of the translations of
+// its codon-aligned halves, for lengths around typical buffer / window sizes
+func Harness_C06_Long() {
+	table := GetCodonTable([]int{1, 11}[vChoice(2)])
+	sizes := []int{1023, 2046, 2049, 4095, 4098}
+	if vTier(0, 1) == 1 {
+		sizes = []int{510, 513, 1023, 1026, 2046, 2049, 2052, 4095, 4098, 8190, 8193, 65535, 65538}
+	}
+	n := sizes[vChoice(len(sizes))] + vChoice(3)
+	// a concrete periodic body with symbolic codons at the start, in the middle and at the end
+	body := make([]byte, n)
+	for i := range body {
+		body[i] = "ATGGCTAAACCGTTTGGA"[i%18]
+	}
+	mid := (n / 2 / 3) * 3
+	s := vBytes(3, "ACGTacgt") + string(body[3:mid]) + vBytes(6, "ACGTacgt") + string(body[mid+6:n-4]) + vBytes(4, "ACGTacgt")
+	whole, err := Translate(s, table)
+	vAssert(err == nil, "accepted")
+	vAssert(len(whole) == n/3, "one-residue-per-complete-codon")
+	for _, k := range []int{3, mid, mid + 3, (n/3 - 1) * 3} {
+		a, _ := Translate(s[:k], table)
+		b, _ := Translate(s[k:], table)
+		vAssert(vEqStr(whole, a+b), "translation-of-concatenation")
+	}
+	up, _ := Translate(c06Upper(s), table)
+	vAssert(vEqStr(whole, up), "case-irrelevant")
 }
 
 func Selftest_C06_Vectors() {
